@@ -1,2 +1,127 @@
-(* statements land with the deep pass; see Proofs *)
-Require Import Model.Base.
+(* C13 — sleep / wake bookkeeping. Over any sequence of Display calls (sleep, wake, drawing, orientation,
+   scrolling, tearing, ... in any order, with any arguments, repeated sleep or wake included):
+     - is_sleeping() (d_sleeping) is true exactly when the last of sleep / wake that was called is sleep
+       (the flag a display starts with when neither was called: false after init);
+     - it equals the sleep state of the reference MIPI-DCS controller as determined by the sleep-in (0x10)
+       and sleep-out (0x11) commands actually sent;
+     - every sleep-in / sleep-out command is followed, inside the same call, by a 120 ms delay, so the two
+       commands are never issued less than 120 ms apart (the controller never flags SleepSpacing).
+   Statements only; proofs in Proofs/SleepP.v. The model is the fault-free `step` / `exec` of Model/Display.v;
+   `sleep_inv k` is the controller-side precondition: user command page selected, no spacing anomaly so
+   far, and the previous sleep command (if any) at least 120 ms old — true after Builder::init (see the
+   example at the end), and re-established by every call. *)
+Require Import Model.Base Model.Orient Model.Dcs Model.Events Model.Builder Model.Rect Model.Batch Model.Display.
+Require Import Oracle.Controller Proofs.OrientStateP Proofs.SleepP.
+Open Scope Z_scope.
+
+(* sleep(): exactly the sleep-in command followed by 120 ms of delay, Ok, flag set; every context, state *)
+Theorem C13_sleep_call : forall c st,
+  step c st PSleep =
+  ([ECmd 0x10 []; EDelay 120000000], ROk,
+   {| d_opts := d_opts st; d_madctl := d_madctl st; d_sleeping := true |}).
+Proof. exact step_sleep. Qed.
+
+(* wake(): exactly the sleep-out command followed by 120 ms of delay, Ok, flag cleared *)
+Theorem C13_wake_call : forall c st,
+  step c st PWake =
+  ([ECmd 0x11 []; EDelay 120000000], ROk,
+   {| d_opts := d_opts st; d_madctl := d_madctl st; d_sleeping := false |}).
+Proof. exact step_wake. Qed.
+
+(* what the controller makes of one sleep() call: asleep; no new anomaly; the command is stamped with the
+   time before the call and the call returns 120 ms later; the invariant holds again *)
+Theorem C13_controller_sleep : forall k, sleep_inv k ->
+  let k' := ctl_run k [ECmd 0x10 []; EDelay 120000000] in
+  k_asleep k' = true /\ sleep_inv k' /\
+  k_last_slp k' = Some (k_clock k) /\ k_clock k' = k_clock k + SLEEP_NS /\ k_flags k' = k_flags k.
+Proof. exact ctl_sleep_call. Qed.
+
+Theorem C13_controller_wake : forall k, sleep_inv k ->
+  let k' := ctl_run k [ECmd 0x11 []; EDelay 120000000] in
+  k_asleep k' = false /\ sleep_inv k' /\
+  k_last_slp k' = Some (k_clock k) /\ k_clock k' = k_clock k + SLEEP_NS /\ k_flags k' = k_flags k.
+Proof. exact ctl_wake_call. Qed.
+
+(* every other operation, with arbitrary arguments (in bounds or not, panicking or not), emits only
+   events that cannot change the controller's sleep state, reset it, switch the command page, or move
+   time backwards *)
+Theorem C13_other_ops_quiet : forall c st op,
+  op <> PSleep -> op <> PWake ->
+  Forall (fun e => quiet_event e = true) (fst (fst (step c st op))).
+Proof. exact step_quiet. Qed.
+
+(* ... and a quiet trace leaves sleep state, page, sleep time stamp alone, and flags no SleepSpacing *)
+Theorem C13_quiet_run : forall k t,
+  Forall (fun e => quiet_event e = true) t -> k_page k = false ->
+  let k' := ctl_run k t in
+  k_asleep k' = k_asleep k /\ k_page k' = false /\ k_last_slp k' = k_last_slp k /\
+  k_clock k <= k_clock k' /\ (In SleepSpacing (k_flags k') -> In SleepSpacing (k_flags k)).
+Proof. exact quiet_run. Qed.
+
+(* ... in particular no sleep-in, sleep-out, soft reset, or hardware reset *)
+Theorem C13_only_sleep_ops_send_sleep_cmds : forall c st op e args,
+  op <> PSleep -> op <> PWake -> In e (fst (fst (step c st op))) ->
+  e <> ECmd 0x10 args /\ e <> ECmd 0x11 args /\ e <> ECmd 0x01 args /\ e <> ERstLow.
+Proof. exact only_sleep_ops_send_sleep_cmds. Qed.
+
+(* ... and does not touch the driver's flag *)
+Theorem C13_other_ops_keep_flag : forall c st op,
+  op <> PSleep -> op <> PWake -> d_sleeping (snd (step c st op)) = d_sleeping st.
+Proof. exact step_keeps_sleeping. Qed.
+
+(* MAIN: any finite history of operations, from any driver state and any controller state that agree on
+   the sleep state. Afterwards (hence, the history being arbitrary, after every call of it): the flag
+   equals the controller's sleep state, the invariant holds, and the flag is the last of sleep / wake *)
+Theorem C13_sleep_tracks : forall c ops st k,
+  sleep_inv k -> k_asleep k = d_sleeping st ->
+  let st' := snd (exec c st ops) in
+  let k' := ctl_run k (exec_trace c st ops) in
+  d_sleeping st' = k_asleep k' /\ sleep_inv k' /\ d_sleeping st' = last_sleep_op ops (d_sleeping st).
+Proof. exact exec_sleep_tracks. Qed.
+
+(* the controller never sees two sleep-in / sleep-out commands less than 120 ms apart *)
+Theorem C13_no_sleep_spacing : forall c ops st k,
+  sleep_inv k -> k_asleep k = d_sleeping st ->
+  ~ In SleepSpacing (k_flags (ctl_run k (exec_trace c st ops))).
+Proof. exact no_sleep_spacing. Qed.
+
+(* ---- non-vacuity ---- *)
+(* controller after power-on, software reset, sleep-out and the 120 ms wait of Builder::init *)
+Definition ex_k0 : ctl := ctl_run (power_on 240 320) [ECmd 0x01 []; ECmd 0x11 []; EDelay 120000000].
+Definition ex_ctx : ctx :=
+  {| c_md := Debug; c_batch := true; c_fw := 240; c_fh := 320; c_enc := fun v => [v]; c_rowcap := 50; c_blockcap := 100 |}.
+Definition ex_st0 : dstate :=
+  fresh_state {| o_bgr := false; o_orient := {| rotn := D0; mir := false |}; o_inv := false; o_btt := false;
+                 o_rtl := false; o_w := 6; o_h := 4; o_ox := 0; o_oy := 0 |}.
+Definition ex_ops : list pop :=
+  [PSleep; PSleep; PClear 0; PWake; PSetOrient {| rotn := D90; mir := true |}; PScrollOffset 3; PSleep].
+
+(* the hypotheses of the main theorem hold for the freshly initialised pair *)
+Example C13_ex_init : sleep_inv ex_k0 /\ k_asleep ex_k0 = d_sleeping ex_st0.
+Proof.
+  split; [| vm_compute; reflexivity]. unfold sleep_inv. split; [vm_compute; reflexivity |].
+  split; [vm_compute; intros H; exact H |]. vm_compute. intros H; discriminate H.
+Qed.
+
+(* a concrete history with repeated sleep: flag true, controller asleep, no anomaly at all, four sleep
+   commands 120 ms apart *)
+Example C13_ex_history :
+  let st' := snd (exec ex_ctx ex_st0 ex_ops) in
+  let k' := ctl_run ex_k0 (exec_trace ex_ctx ex_st0 ex_ops) in
+  d_sleeping st' = true /\ k_asleep k' = true /\ k_flags k' = [] /\
+  last_sleep_op ex_ops false = true /\ exec_all_ok ex_ctx ex_st0 ex_ops = true /\
+  k_clock k' = 5 * SLEEP_NS /\ k_last_slp k' = Some (4 * SLEEP_NS).
+Proof. vm_compute. repeat split. Qed.
+
+(* the flag follows the calls: after each prefix *)
+Example C13_ex_prefixes :
+  map (fun n => d_sleeping (snd (exec ex_ctx ex_st0 (firstn n ex_ops)))) [0; 1; 2; 3; 4; 5; 6; 7]%nat
+  = [false; true; true; true; false; false; false; true].
+Proof. vm_compute. reflexivity. Qed.
+
+(* the anomaly is not vacuous: without the delay the reference controller does flag the second command *)
+Example C13_ex_spacing_detected :
+  k_flags (ctl_run ex_k0 [ECmd 0x10 []; ECmd 0x11 []]) = [SleepSpacing] /\
+  k_flags (ctl_run ex_k0 [ECmd 0x10 []; EDelay 119999999; ECmd 0x11 []]) = [SleepSpacing] /\
+  k_flags (ctl_run ex_k0 [ECmd 0x10 []; EDelay 120000000; ECmd 0x11 []]) = [].
+Proof. vm_compute. repeat split. Qed.
